@@ -19,6 +19,7 @@ from typing import List, Set
 from ..index import AnalysisError, Index, call_name, norm, walk_no_nested
 from ..report import Report
 from ..rules import cfg_nodes_with_call, cfg_of, guards_dominating, path_text
+from ..dataflow import DefUse
 
 ORD = "model.htn.ordering"
 
@@ -112,12 +113,33 @@ def run(idx: Index, rep: Report, tier: str) -> None:
         ok = bool(answers) and all(guarded) and bool(nones)
         rep.check(ok, rule2, f"{meth}() answers only for a {want} and None otherwise", m.loc(), construct=f"{len(answers)} answer(s) under isinstance(…, {want}); {len(nones)} return None", function=m.qualname)
     tm = tn.lookup("_ordering")
-    ok = tm is not None and any(isinstance(c, ast.Call) and call_name(c) == "ordering" and "temporal_constraints()" in norm(c) and "subtasks" in norm(c) for c in walk_no_nested(tm.node))
+    ok = False
+    if tm is not None:
+        tcfg = cfg_of(tm)
+        tdu = DefUse(tcfg)
+        for nd_, c in cfg_nodes_with_call(tcfg, "ordering"):
+            reach = {x for a in list(c.args) + [k.value for k in c.keywords] for ch in tdu.expanded_chains(a, nd_) for x in ch} | {norm(c)}
+            # single-assignment locals the arguments name, resolved to what they were bound to (comprehensions included)
+            todo, seen_names = [x.id for x in ast.walk(c) if isinstance(x, ast.Name)], set()
+            while todo:
+                nm = todo.pop()
+                if nm in seen_names:
+                    continue
+                seen_names.add(nm)
+                st = [a for a in walk_no_nested(tm.node) if isinstance(a, ast.Assign) and len(a.targets) == 1 and isinstance(a.targets[0], ast.Name) and a.targets[0].id == nm]
+                if len(st) == 1:
+                    reach.add(norm(st[0].value))
+                    todo += [x.id for x in ast.walk(st[0].value) if isinstance(x, ast.Name)]
+            flat = " ".join(sorted(reach))
+            ok = ok or (("temporal_constraints()" in flat or "temporal_constraints" in reach) and "subtasks" in flat)
     rep.check(ok, rule2, "the classification sees all subtasks and all temporal constraints", tm.loc() if tm else tn.loc(), construct="ordering(subtask ids, self.temporal_constraints())", function=tn.qualname)
 
     rule3 = "C34.3 total-order-unique"
     b = idx.func(ORD + "._build_total_order")
     rep.note_function(b.qualname)
+    if _total_order_by_cases(b, rep, rule3, tier):
+        _after_total_order(idx, rep, cfg, f)
+        return
     broles = {}
     bparams = b.params()
     for a in walk_no_nested(b.node):
@@ -149,6 +171,65 @@ def run(idx: Index, rep: Report, tier: str) -> None:
     muts = [c for c in walk_no_nested(b.node) if isinstance(c, ast.Call) and isinstance(c.func, ast.Attribute) and c.func.attr in ("remove", "pop", "clear", "append") and norm(c.func.value) in ("tasks", "precedences")]
     rep.check(not muts, rule3, "the caller's task set and precedence list are not modified", b.loc(muts[0]) if muts else b.loc(), construct=norm(muts[0]) if muts else "works on copies", function=b.qualname)
 
+    _after_total_order(idx, rep, cfg, f)
+
+
+def _total_order_by_cases(b, rep: Report, rule3: str, tier: str) -> bool:
+    """_build_total_order is a pure function of a finite set of task names and a list of pairs of them, and it touches
+    the names only through == / != / membership: its answer for n tasks is decided by interpreting its syntax tree
+    on every relation over n names (all 2^(n*n) of them for n <= 3, all irreflexive ones for n = 4 in the thorough
+    tier). Expected: the one linearisation compatible with the pairs when there is exactly one, None otherwise; the
+    arguments are left as they were. Returns False (shape rules take over) when the function uses a construct the
+    interpreter does not model."""
+    import itertools
+
+    from .extra3 import _OrderInterp, _Raised, _Returned, _Yielded
+
+    params = [p for p in b.params() if p not in ("self", "cls")]
+    if len(params) != 2:
+        return False
+    interp = _OrderInterp(b.node)
+    interp.check_asserts = True
+    sizes = [0, 1, 2, 3] + ([4] if tier == "thorough" else [])
+    results = {}
+    for n in sizes:
+        names = [f"t{i}" for i in range(n)]
+        pairs = [(a, c) for a in names for c in names if n <= 3 or a != c]
+        wrong = None
+        cases = 0
+        for mask in range(1 << len(pairs)):
+            rel = [pairs[i] for i in range(len(pairs)) if mask >> i & 1]
+            lins = [list(pm) for pm in itertools.permutations(names) if all(pm.index(a) < pm.index(c) for a, c in rel if a != c) and all(a != c for a, c in rel)]
+            want = lins[0] if len(lins) == 1 else None
+            tasks, precs = set(names), list(rel)
+            try:
+                interp.run({params[0]: tasks, params[1]: precs})
+                got = None
+            except _Returned as r:
+                got = r.value
+            except _Yielded:
+                got = None
+            except _Raised as ex:
+                got = f"raises {ex}"
+            except _OrderInterp.Unsupported:
+                return False
+            except Exception:
+                return False
+            cases += 1
+            if wrong is None and (got != want or tasks != set(names) or precs != rel):
+                wrong = (rel, want, got, tasks != set(names) or precs != rel)
+        results[n] = (cases, wrong)
+    for n, (cases, wrong) in results.items():
+        detail = ""
+        if wrong is not None:
+            rel, want, got, mutated = wrong
+            detail = f"for the tasks {[f't{i}' for i in range(n)]} and the precedences {rel} the answer is {got}, expected {want}" + ("; the caller's arguments are modified" if mutated else "")
+        rep.check(wrong is None, rule3, f"{n} task(s): a total order is answered exactly when one linearisation is compatible with the precedences, and it is that one", b.loc(), construct=f"{cases} relations over {n} names interpreted", detail=detail, function=b.qualname, strict=True)
+    rep.count("total_order_cases", sum(c for c, _ in results.values()))
+    return True
+
+
+def _after_total_order(idx: Index, rep: Report, cfg, f) -> None:
     rule4 = "C34.4 returned-precedences-are-the-extracted-ones"
     for n in cfg.nodes:
         if n.kind == "return" and isinstance(n.ast.value, ast.Call) and call_name(n.ast.value) in ("TotalOrder", "PartialOrder"):
